@@ -1,0 +1,19 @@
+//go:build verif
+
+package charcode
+
+// VerifNodes exposes the linearised lookup tree of a Codec (bound, child
+// pairs in slice order) to the verification harness.  Read-only; no
+// behaviour of its own.
+func (c *Codec) VerifNodes() [][2]int {
+	res := make([][2]int, len(c.nodes))
+	for i, n := range c.nodes {
+		res[i] = [2]int{int(n.bound), int(n.child)}
+	}
+	return res
+}
+
+// VerifMatchLen exposes CodeSpaceRange.matchLen.
+func (csr CodeSpaceRange) VerifMatchLen(s []byte) int {
+	return csr.matchLen(s)
+}
